@@ -4,6 +4,7 @@ import (
 	"fmt"
 	"math/big"
 	"path/filepath"
+	"regexp"
 	"strings"
 	"time"
 
@@ -209,6 +210,44 @@ func (rc *RunCtx) matrixFamily(build func() ([]MatrixRec, error), prefix string)
 
 var _ = run.Query
 
+// regexUniverse: like_regex patterns x flag sets, as a filter over an array of
+// subjects (each case decides every subject at once) and as predicate checks
+// on single subjects (shared by C12 and C05).
+func regexUniverse() *ExecUniverse {
+	pats := []string{"a", "^a", "a$", "^a$", "a.b", "a.*b", "^a.*b$", "[a-c]+", "^[a-c]+$", "[^a]", "(ab|ba)+", "a|b", "a?b", "ab*", `\d+`,
+		`\w+\s\w+`, `^\s*$`, "a{2}", "a{1,2}b", `\.`, "^b", "b$", ".", "^.$", "^..$", "A", "[A-Z]", `a\b`, "(?:a|b)c", "", "x*", "^$", "a+?b", `\Aa`, `a\z`,
+		`[a\]]`, `\$`, "a.", ".b", "^.*$", "(a)(b)", "[ab][ab]", `\S+`, `\D`, "a*", "^a*$", "b+$", "^(a|b)*$", "a\nb", "a$\nb", "^a$|^b$",
+		// text that is special to a quoting construct: under the q flag every character stands for itself
+		`a\Eb`, `\Qa\E`, `a\Q`, `\E`, `a\\`, `(`, `[a`, `a)`, `*a`}
+	flagSets := []wire.Flags{{}, {I: true}, {S: true}, {M: true}, {Q: true}, {I: true, S: true}, {I: true, M: true}, {S: true, M: true}, {I: true, Q: true}, {I: true, S: true, M: true}, {S: true, M: true, Q: true}}
+	subjects := []string{"", "a", "b", "ab", "ba", "aab", "A", "AB", "a\nb", "\n", "a1", "a b", "ab\n", "b\na", "aaa", "1", " ", "a.b", "$", "abc", "A\nB", "\nb", "a\n", "12", "a]", "ac"}
+	var subjVals []wire.Value
+	for _, t := range subjects {
+		subjVals = append(subjVals, wire.StrV(t))
+	}
+	subjVals = append(subjVals, wire.Float(1), wire.Null(), wire.Bool(true), wire.Arr(wire.StrV("a")), wire.Obj("a", wire.StrV("a")))
+	ru := &ExecUniverse{Vars: []VarsRow{{Vars: []wire.Var{}}}}
+	ru.Docs = append(ru.Docs, DocRow{Doc: wire.Value{T: "arr", A: subjVals}})
+	for _, t := range []string{"ab", "a\nb", "AB", ""} {
+		ru.Docs = append(ru.Docs, DocRow{Doc: wire.StrV(t)})
+	}
+	for _, pat := range pats {
+		for _, fl := range flagSets {
+			if _, err := regexp.Compile(pat); err != nil && !fl.Q {
+				continue // not a pattern the parser accepts without the q flag (only selects inputs; decides nothing)
+			}
+			cond := wire.Node{K: "regex", X: []wire.Node{{K: "cur"}}, Pat: wire.Bytes(pat), Flags: fl}
+			ru.Paths = append(ru.Paths, PathRow{Chain: []wire.Node{{K: "root"}, {K: "anyarr"}, {K: "filter", P: &cond}}})
+			ru.Cases = append(ru.Cases, CaseRef{PI: len(ru.Paths), DI: 1, VI: 1, Lax: true, Zone: "UTC"}, CaseRef{PI: len(ru.Paths), DI: 1, VI: 1, Lax: false, Zone: "UTC"})
+			ru.Paths = append(ru.Paths, PathRow{Pred: true, Chain: []wire.Node{{K: "regex", X: []wire.Node{{K: "root"}}, Pat: wire.Bytes(pat), Flags: fl}}})
+			for d := 2; d <= len(ru.Docs); d++ {
+				ru.Cases = append(ru.Cases, CaseRef{PI: len(ru.Paths), DI: d, VI: 1, Lax: true, Zone: "UTC"})
+			}
+		}
+	}
+	return ru
+}
+
 func init() {
 	checks["C12"] = func(rc *RunCtx) {
 		rc.Ev.Assumptions = stdAssumptions
@@ -284,36 +323,42 @@ func init() {
 		rc.cov("sequence_cases", len(u.Cases))
 		rc.execFamily(u, "C12", "C01")
 
-		// like_regex: patterns x flag sets, as a filter over an array of subjects
-		// (each case decides every subject at once) and as predicate checks on
-		// single subjects; judged against spec/Regex.tla (an RE2 matcher in TLA+)
-		pats := []string{"a", "^a", "a$", "^a$", "a.b", "a.*b", "^a.*b$", "[a-c]+", "^[a-c]+$", "[^a]", "(ab|ba)+", "a|b", "a?b", "ab*", `\d+`,
-			`\w+\s\w+`, `^\s*$`, "a{2}", "a{1,2}b", `\.`, "^b", "b$", ".", "^.$", "^..$", "A", "[A-Z]", `a\b`, "(?:a|b)c", "", "x*", "^$", "a+?b", `\Aa`, `a\z`,
-			`[a\]]`, `\$`, "a.", ".b", "^.*$", "(a)(b)", "[ab][ab]", `\S+`, `\D`, "a*", "^a*$", "b+$", "^(a|b)*$", "a\nb", "a$\nb", "^a$|^b$"}
-		flagSets := []wire.Flags{{}, {I: true}, {S: true}, {M: true}, {Q: true}, {I: true, S: true}, {I: true, M: true}, {S: true, M: true}, {I: true, Q: true}, {I: true, S: true, M: true}, {S: true, M: true, Q: true}}
-		subjects := []string{"", "a", "b", "ab", "ba", "aab", "A", "AB", "a\nb", "\n", "a1", "a b", "ab\n", "b\na", "aaa", "1", " ", "a.b", "$", "abc", "A\nB", "\nb", "a\n", "12", "a]", "ac"}
-		var subjVals []wire.Value
-		for _, t := range subjects {
-			subjVals = append(subjVals, wire.StrV(t))
+		// starts with: the right operand is one item and is never unwrapped, in
+		// either mode; a variable bound to an array of strings must give unknown
+		su := &ExecUniverse{}
+		abc := wire.Arr(wire.StrV("abc"), wire.StrV("xyz"), wire.StrV("ab"))
+		su.Docs = []DocRow{{Doc: wire.Obj("a", abc)}, {Doc: wire.Obj("a", wire.StrV("abc"))}, {Doc: wire.Obj("a", wire.Arr(wire.Arr(wire.StrV("abc"))))}}
+		su.Vars = []VarsRow{{Vars: []wire.Var{{K: wire.Bytes("p"), V: wire.Arr(wire.StrV("ab"))}}}, {Vars: []wire.Var{{K: wire.Bytes("p"), V: wire.StrV("ab")}}},
+			{Vars: []wire.Var{{K: wire.Bytes("p"), V: wire.Arr(wire.StrV("ab"), wire.StrV("x"))}}}, {Vars: []wire.Var{{K: wire.Bytes("p"), V: wire.Arr()}}}}
+		vp := []wire.Node{{K: "var", S: wire.Bytes("p")}}
+		sw := func(l []wire.Node) wire.Node { return wire.Node{K: "bin", Op: "starts", L: l, R: vp} }
+		cur := []wire.Node{{K: "cur"}}
+		fc := sw(cur)
+		unk := wire.Node{K: "un", Op: "isunknown", X: []wire.Node{sw(cur)}}
+		su.Paths = []PathRow{
+			{Pred: true, Chain: []wire.Node{sw(side("a"))}},
+			{Pred: true, Chain: []wire.Node{sw([]wire.Node{{K: "root"}, {K: "key", S: wire.Bytes("a")}})}},
+			{Pred: true, Chain: []wire.Node{{K: "un", Op: "isunknown", X: []wire.Node{sw(side("a"))}}}},
+			{Chain: []wire.Node{{K: "root"}, {K: "key", S: wire.Bytes("a")}, {K: "anyarr"}, {K: "filter", P: &fc}}},
+			{Chain: []wire.Node{{K: "root"}, {K: "key", S: wire.Bytes("a")}, {K: "anyarr"}, {K: "filter", P: &unk}}},
 		}
-		subjVals = append(subjVals, wire.Float(1), wire.Null(), wire.Bool(true), wire.Arr(wire.StrV("a")), wire.Obj("a", wire.StrV("a")))
-		ru := &ExecUniverse{Vars: []VarsRow{{Vars: []wire.Var{}}}}
-		ru.Docs = append(ru.Docs, DocRow{Doc: wire.Value{T: "arr", A: subjVals}})
-		for _, t := range []string{"ab", "a\nb", "AB", ""} {
-			ru.Docs = append(ru.Docs, DocRow{Doc: wire.StrV(t)})
-		}
-		for _, pat := range pats {
-			for _, fl := range flagSets {
-				cond := wire.Node{K: "regex", X: []wire.Node{{K: "cur"}}, Pat: wire.Bytes(pat), Flags: fl}
-				ru.Paths = append(ru.Paths, PathRow{Chain: []wire.Node{{K: "root"}, {K: "anyarr"}, {K: "filter", P: &cond}}})
-				ru.Cases = append(ru.Cases, CaseRef{PI: len(ru.Paths), DI: 1, VI: 1, Lax: true, Zone: "UTC"}, CaseRef{PI: len(ru.Paths), DI: 1, VI: 1, Lax: false, Zone: "UTC"})
-				ru.Paths = append(ru.Paths, PathRow{Pred: true, Chain: []wire.Node{{K: "regex", X: []wire.Node{{K: "root"}}, Pat: wire.Bytes(pat), Flags: fl}}})
-				for d := 2; d <= len(ru.Docs); d++ {
-					ru.Cases = append(ru.Cases, CaseRef{PI: len(ru.Paths), DI: d, VI: 1, Lax: true, Zone: "UTC"})
+		for pi := range su.Paths {
+			for di := range su.Docs {
+				for vi := range su.Vars {
+					for _, lax := range []bool{true, false} {
+						su.Cases = append(su.Cases, CaseRef{PI: pi + 1, DI: di + 1, VI: vi + 1, Lax: lax, Zone: "UTC"})
+					}
 				}
 			}
 		}
-		rc.cov("like_regex", map[string]any{"patterns": len(pats), "flag_sets": len(flagSets), "subjects": len(subjVals), "cases": len(ru.Cases)})
+		rc.cov("starts_with_variable_cases", len(su.Cases))
+		rc.execFamily(su, "C12", "C01")
+
+		// like_regex: patterns x flag sets, as a filter over an array of subjects
+		// (each case decides every subject at once) and as predicate checks on
+		// single subjects; judged against spec/Regex.tla (an RE2 matcher in TLA+)
+		ru := regexUniverse()
+		rc.cov("like_regex", map[string]any{"patterns": 60, "flag_sets": 11, "subjects": 31, "cases": len(ru.Cases)})
 		rc.execFamily(ru, "C12", "C01")
 
 		s := []string{}
